@@ -174,6 +174,8 @@ type world struct {
 	X        client
 	seq      int
 	gate     *gatedStorage
+	node     string
+	cnl      *session.CrossNodeListener
 }
 
 const otherNode = "node-other"
@@ -259,35 +261,64 @@ func (w *world) tunnelOpen(fc *fakeConn, c *types.Connection, req *packet.Tunnel
 }
 
 func newWorld(withRouting bool) *world {
+	gs := &gatedStorage{FullStorage: memory.New(context.Background())}
+	w := newWorldOn(gs, "node-verif", withRouting, false)
+	w.L, w.T, w.S, w.X = w.newClient(), w.newClient(), w.newClient(), w.newClient()
+	return w
+}
+
+// newWorldOn wires one server node over the given (possibly shared) storage.
+// realPeer=false: the "other node" is a fake TCP listener of the harness (single-node tables);
+// realPeer=true : the node runs the REAL CrossNodeListener and finds its peers through the routing table's node addresses,
+//                 exactly as components_session.go wires a cluster node (two such nodes over one storage = a two-node cluster).
+func newWorldOn(gs *gatedStorage, node string, withRouting, realPeer bool) *world {
 	ctx := context.Background()
-	gs := &gatedStorage{FullStorage: memory.New(ctx)}
 	var st storage.Storage = gs
-	node := "node-verif"
 	fx, err := server.VerifNewFixture(ctx, st, server.VerifFixtureOptions{NodeID: node, WithRouting: withRouting})
 	must(err)
-	w := &world{fx: fx, gate: gs}
+	w := &world{fx: fx, gate: gs, node: node}
 	if withRouting {
 		w.routing = session.NewTunnelRoutingTable(st, 30*time.Second)
-		ln, err := net.ListenTCP("tcp", &net.TCPAddr{IP: net.ParseIP("127.0.0.1"), Port: 0})
-		must(err)
-		w.listener = ln
-		w.accepted = make(chan *net.TCPConn, 64)
-		go func() {
-			for {
-				c, err := ln.AcceptTCP()
-				if err != nil {
-					return
+		if realPeer {
+			w.cnl = session.NewCrossNodeListener(fx.Session, 0)
+			must(w.cnl.Start(ctx))
+			fx.Session.SetCrossNodeListener(w.cnl)
+			addr := w.cnl.VerifAddr()
+			_, port, err := net.SplitHostPort(addr)
+			must(err)
+			must(w.routing.RegisterNodeAddress(node, "127.0.0.1:"+port))
+		} else {
+			ln, err := net.ListenTCP("tcp", &net.TCPAddr{IP: net.ParseIP("127.0.0.1"), Port: 0})
+			must(err)
+			w.listener = ln
+			w.accepted = make(chan *net.TCPConn, 64)
+			go func() {
+				for {
+					c, err := ln.AcceptTCP()
+					if err != nil {
+						return
+					}
+					w.accepted <- c
 				}
-				w.accepted <- c
-			}
-		}()
-		must(w.routing.RegisterNodeAddress(otherNode, ln.Addr().String()))
+			}()
+			must(w.routing.RegisterNodeAddress(otherNode, ln.Addr().String()))
+		}
 		// exactly as components_session.go wires it: node addresses come from the routing table
 		w.connMgr = session.NewTunnelConnectionManager(w.routing.GetNodeAddress, session.DefaultTunnelConnectionManagerConfig())
 		fx.Session.SetTunnelConnectionManager(w.connMgr)
 	}
-	w.L, w.T, w.S, w.X = w.newClient(), w.newClient(), w.newClient(), w.newClient()
 	return w
+}
+
+// newCluster: two real nodes A and B over ONE storage; the four clients are registered once (through node A) and can
+// authenticate on either node.
+func newCluster() (*world, *world) {
+	gs := &gatedStorage{FullStorage: memory.New(context.Background())}
+	a := newWorldOn(gs, "node-A", true, true)
+	b := newWorldOn(gs, "node-B", true, true)
+	a.L, a.T, a.S, a.X = a.newClient(), a.newClient(), a.newClient(), a.newClient()
+	b.L, b.T, b.S, b.X = a.L, a.T, a.S, a.X
+	return a, b
 }
 
 // ---------------------------------------------------------------------------------------------
@@ -384,6 +415,14 @@ func setMappingState(w *world, m *models.PortMapping, st string) {
 		must(w.fx.Cloud.UpdatePortMapping(m))
 	case "expired":
 		t := time.Now().Add(-time.Hour)
+		m.ExpiresAt = &t
+		must(w.fx.Cloud.UpdatePortMapping(m))
+	case "exp25s", "exp10s", "exp2s", "exp1ms", "soon60s":
+		// expiry boundary: ExpiresAt shortly before now (expired, however recently) / shortly after now (still valid).
+		// The code reads time.Now() directly, so real offsets are used; the request follows within milliseconds.
+		off := map[string]time.Duration{"exp25s": -25 * time.Second, "exp10s": -10 * time.Second, "exp2s": -2 * time.Second,
+			"exp1ms": -time.Millisecond, "soon60s": 60 * time.Second}[st]
+		t := time.Now().Add(off)
 		m.ExpiresAt = &t
 		must(w.fx.Cloud.UpdatePortMapping(m))
 	case "inactive":
@@ -615,7 +654,7 @@ func runCell(wLocal, wRemote *world, in cellIn) (out cellOut) {
 	namedMapping := map[string]string{"none": "", "tunnel": "m1", "other": "m2"}[in.Mid]
 	isListen := (tunnelMapping == "m1" && in.ID == "listen") || (tunnelMapping == "m2" && authenticated)
 	isTarget := tunnelMapping == "m1" && in.ID == "target"
-	valid := in.MState == "active" // the state dimension applies to the named mapping, which must be the tunnel's mapping anyway
+	valid := in.MState == "active" || in.MState == "soon60s" // the state dimension applies to the named mapping, which must be the tunnel's mapping anyway
 	out.Entitled = authenticated && tunnelMapping != "" && namedMapping == tunnelMapping && valid &&
 		((isListen && in.Secret == "none") || ((isListen || isTarget) && in.Secret == "right"))
 
@@ -705,6 +744,26 @@ func gen() {
 	}
 	sb.WriteString(strings.Join(rows, ";\n") + "\n].\n\n")
 
+	// the expiry boundary of the real PortMapping.IsExpired / IsValid: offsets of ExpiresAt from now, in milliseconds
+	sb.WriteString("(* rows: (ExpiresAt - now in ms, negative = in the past; 0 encodes \"no expiry\") -> (past, IsExpired, IsValid of an otherwise active mapping) *)\n")
+	sb.WriteString("Definition expiry_table : list (N * bool * (bool * bool)) := [\n")
+	rows = nil
+	for _, off := range []int64{-3600000, -45000, -31000, -29000, -25000, -10000, -2000, -1000, -50, -1, 2000, 29000, 31000, 60000, 3600000} {
+		m := &models.PortMapping{ID: "g", ListenClientID: 11, TargetClientID: 12, Status: models.MappingStatusActive}
+		t := time.Now().Add(time.Duration(off) * time.Millisecond)
+		m.ExpiresAt = &t
+		abs := off
+		if abs < 0 {
+			abs = -abs
+		}
+		rows = append(rows, fmt.Sprintf("  (%d, %s, (%s, %s))", abs, b2s(off < 0), b2s(m.IsExpired()), b2s(m.IsValid())))
+	}
+	{
+		m := &models.PortMapping{ID: "g", ListenClientID: 11, TargetClientID: 12, Status: models.MappingStatusActive}
+		rows = append(rows, fmt.Sprintf("  (0, false, (%s, %s))", b2s(m.IsExpired()), b2s(m.IsValid())))
+	}
+	sb.WriteString(strings.Join(rows, ";\n") + "\n].\n\n")
+
 	// the real credential validator ServerTunnelHandler.HandleTunnelOpen on
 	//   client in (0, listen, target, other) x mapping id named? x secret (none/right/wrong) x resume x mapping state
 	sb.WriteString("(* rows: ((client: 0 none 1 listen 2 target 3 other, names_mapping, secret: 0 none 1 right 2 unrelated 3 first char 4 all but last 5 all but first 6 right+1 7 case flipped 8 last char changed, resume),\n")
@@ -745,7 +804,7 @@ func gen() {
 	sb.WriteString(strings.Join(rows, ";\n") + "\n].\n\n")
 	// does the secret-key path consult IsValid on this tree? (right secret, target client, revoked mapping)
 	sb.WriteString("(* dimensions of the dispatcher table driven through SessionManager.HandlePacket (lib/props/c04.py) *)\n")
-	sb.WriteString("Definition table_dims : list N := [5; 3; 10; 2; 5; 4].\n")
+	sb.WriteString("Definition table_dims : list N := [5; 3; 10; 2; 10; 4].\n")
 	sb.WriteString("Close Scope N_scope.\n")
 	fmt.Print(sb.String())
 }
@@ -762,6 +821,11 @@ func main() {
 			Mode string `json:"mode"`
 		}
 		_ = json.Unmarshal(raw, &probe)
+		if probe.Mode == "xnode" {
+			var x xIn
+			must(json.Unmarshal(raw, &x))
+			return runXnode(x)
+		}
 		if probe.Mode == "race" {
 			var r raceIn
 			must(json.Unmarshal(raw, &r))
